@@ -295,3 +295,4 @@ Proof.
     replace (Z.of_nat (length ls)) with (Z.of_N (N.of_nat (length ls))) by lia.
     rewrite encode_count by lia. cbn [rbind]. reflexivity.
 Qed.
+
